@@ -21,7 +21,7 @@ import (
 )
 
 type c23Op struct {
-	Kind    string `json:"kind"` // pub | rem | state | stream | clear
+	Kind    string `json:"kind"` // pub | rem | state | stream | clear | expire (Limit = ms to sleep first)
 	Ch      string `json:"ch"`
 	Key     string `json:"key,omitempty"`
 	Data    string `json:"data,omitempty"`
@@ -132,6 +132,7 @@ func c23Exec(b MapBroker, op c23Op, ep *c23Epochs) (res c23Res) {
 	}
 	switch op.Kind {
 	case "pub":
+		defer time.Sleep(3 * time.Millisecond) // distinct, ordered key deadlines
 		return c23Upd(b.Publish(ctx, op.Ch, op.Key, MapPublishOptions{IdempotencyKey: op.Idem,
 			IdempotentResultTTL: time.Duration(op.IdemTTL) * time.Millisecond, Data: []byte(op.Data), UseDelta: op.Delta,
 			Version: op.Ver, VersionEpoch: op.VEp, score: op.Score, KeyMode: KeyMode(op.Mode), RefreshTTLOnSuppress: op.Refresh,
@@ -177,6 +178,24 @@ func c23Exec(b MapBroker, op c23Op, ep *c23Epochs) (res c23Res) {
 			out.Stream = append(out.Stream, [4]string{strconv.FormatUint(p.Offset, 10), p.Key, string(p.Data), vBool(p.Removed)})
 		}
 		return out
+	case "expire":
+		// one key-TTL sweep, after every key published so far has passed its (short) KeyTTL
+		time.Sleep(time.Duration(op.Limit) * time.Millisecond)
+		switch bb := b.(type) {
+		case *RedisMapBroker:
+			// (cleanupPartition repeats while the registration ZSET still lists due channels: bound it)
+			cctx, cancel := context.WithTimeout(ctx, 20*time.Second)
+			bb.runCleanupCycle(cctx)
+			timedOut := cctx.Err() != nil
+			cancel()
+			if timedOut {
+				return c23Res{Kind: "err", Err: "cleanup cycle did not terminate"}
+			}
+		case *MemoryMapBroker:
+			var next int64
+			bb.mapHub.expireKeysIteration(&next)
+		}
+		return c23Res{Kind: "unit"}
 	case "clear":
 		if err := b.Clear(ctx, op.Ch, MapClearOptions{}); err != nil {
 			return c23Res{Kind: "err", Err: err.Error()}
@@ -195,20 +214,22 @@ func c23PosCoq(op c23Op) string {
 	return "(Some " + vPair(vN(op.POff), c18Str(op.PEpoch)) + ")"
 }
 
-func c23OpCoq(i int, op c23Op, nonceR string) string {
+func c23OpCoq(i int, op c23Op, nonceR string, now uint64, node string) string {
 	nm := c18Str(fmt.Sprintf("N%d", i))
 	nr := c18Str(nonceR)
 	switch op.Kind {
 	case "pub":
 		po := vApp("mkMP", c18Str(op.Idem), vZ(int64(op.IdemTTL)), c18Str(op.Data), vBool(op.Delta), vN(op.Ver), c18Str(op.VEp),
 			vZ(op.Score), c18Str(op.Mode), vBool(op.Refresh), c23PosCoq(op))
-		return vApp("MPublish", c18Str(op.Ch), c18Str(op.Key), po, nr, "1000")
+		return vApp("MPublish", c18Str(op.Ch), c18Str(op.Key), po, nr, vN(now))
 	case "rem":
-		return vApp("MRemove", c18Str(op.Ch), c18Str(op.Key), vApp("mkMR", c18Str(op.Idem), vZ(int64(op.IdemTTL)), c23PosCoq(op)), nr, "1000")
+		return vApp("MRemove", c18Str(op.Ch), c18Str(op.Key), vApp("mkMR", c18Str(op.Idem), vZ(int64(op.IdemTTL)), c23PosCoq(op)), nr, vN(now))
 	case "state":
 		return vApp("MReadState", c18Str(op.Ch), c23PosCoq(op), vZ(int64(op.Limit)), c18Str(op.Key), vBool(op.Asc), nr, nm)
 	case "stream":
 		return vApp("MReadStream", c18Str(op.Ch), c23PosCoq(op), vZ(int64(op.Limit)), vBool(op.Reverse), nr, nm)
+	case "expire":
+		return vApp("MCleanup", vN(now), c18Str(node))
 	default:
 		return vApp("MClear", c18Str(op.Ch))
 	}
@@ -265,6 +286,8 @@ func c23Setup(t *testing.T) *c23Env {
 		c18Sha(brokerStateReadUnorderedScriptSource): "map_broker_read_unordered",
 		c18Sha(brokerStateReadStreamScriptSource):    "map_broker_stream_read",
 		c18Sha(brokerStateReadMetaScriptSource):      "map_broker_read_meta",
+		c18Sha(brokerStateFindExpiredScriptSource):   "map_broker_find_expired",
+		c18Sha(brokerStateBatchRemoveScriptSource):   "map_broker_batch_remove",
 	})
 	if err != nil {
 		t.Fatal(err)
@@ -292,6 +315,7 @@ type c23Run struct {
 	res    []c23Res
 	wire   [][][]string
 	nonceR []string // per op: token of the string the Redis scripts received as new epoch (or N<i>)
+	now    []uint64 // per op: the "now" (ms) the Redis broker put on the wire (Publish / Remove / cleanup), 0 if none
 	ep     *c23Epochs
 }
 
@@ -308,6 +332,16 @@ func (e *c23Env) runRedis(t *testing.T, ops []c23Op) c23Run {
 		if nonce != "" {
 			tokR = run.ep.learn(i, op.Ch, nonce)
 		}
+		var now uint64
+		if op.Kind == "expire" {
+			// the sweep's commands depend on the replies; only its time is taken from the wire
+			for _, c := range log {
+				if c[0] == "zrangebyscore" && len(c) > 3 && now == 0 {
+					now, _ = strconv.ParseUint(c[3], 10, 64)
+				}
+			}
+			log = nil
+		}
 		for _, c := range log {
 			switch c[0] {
 			case "publish":
@@ -317,7 +351,7 @@ func (e *c23Env) runRedis(t *testing.T, ops []c23Op) c23Run {
 			case "EVAL:map_broker_add":
 				if len(c) > 35 {
 					c[11] = "@P"
-					c[35] = "1000"
+					now, _ = strconv.ParseUint(c[35], 10, 64)
 				}
 			}
 			for k := range c {
@@ -333,6 +367,7 @@ func (e *c23Env) runRedis(t *testing.T, ops []c23Op) c23Run {
 		run.res = append(run.res, r)
 		run.wire = append(run.wire, log)
 		run.nonceR = append(run.nonceR, tokR)
+		run.now = append(run.now, now)
 	}
 	if e.srv.fail != nil {
 		t.Fatalf("model server failure: %v", e.srv.fail)
@@ -360,6 +395,8 @@ func (e *c23Env) runMemory(t *testing.T, ops []c23Op) c23Run {
 var c23Persistent = c23Cfg{Mode: 3, Size: 100, STTL: 3600000}
 var c23Recoverable = c23Cfg{Mode: 2, KeyTTL: 3600000, Size: 100, STTL: 3600000, MTTL: 36000000}
 var c23Ephemeral = c23Cfg{Mode: 1, KeyTTL: 3600000}
+var c23RecoverableTTL = c23Cfg{Mode: 2, KeyTTL: 40, Size: 100, STTL: 3600000, MTTL: 36000000}
+var c23EphemeralTTL = c23Cfg{Mode: 1, KeyTTL: 40}
 
 type c23Probe struct {
 	name string
@@ -419,6 +456,18 @@ var c23Probes = []c23Probe{
 	{name: "clear-idempotency", cfg: c23Persistent, ops: []c23Op{
 		c23P("a", "k1", "d1", func(o *c23Op) { o.Idem = "i1" }), {Kind: "clear", Ch: "a"},
 		c23P("a", "k1", "d2", func(o *c23Op) { o.Idem = "i1" }), {Kind: "state", Ch: "a", Limit: -1}}},
+	{name: "key-expiry-recoverable", cfg: c23RecoverableTTL, ops: []c23Op{
+		c23P("a", "k1", "d1", nil), c23P("a", "k2", "d2", nil), c23P("b", "k1", "x", nil), c23P("a", "k1", "d3", nil),
+		{Kind: "rem", Ch: "a", Key: "k2"}, c23P("a", "k3", "d4", nil),
+		c23P("a", "k3", "d5", func(o *c23Op) { o.Mode = "if_new"; o.Refresh = true }),
+		{Kind: "expire", Limit: 80}, {Kind: "state", Ch: "a", Limit: -1}, {Kind: "stream", Ch: "a", Limit: -1},
+		{Kind: "state", Ch: "b", Limit: -1}, c23P("a", "k1", "d6", nil), {Kind: "expire", Limit: 80},
+		{Kind: "state", Ch: "a", Limit: -1}, {Kind: "stream", Ch: "a", Limit: -1}}},
+	{name: "key-expiry-ephemeral", cfg: c23EphemeralTTL, ops: []c23Op{
+		c23P("a", "k1", "d1", nil), c23P("a", "k2", "d2", nil), {Kind: "expire", Limit: 80}, {Kind: "state", Ch: "a", Limit: -1},
+		c23P("a", "k3", "d3", nil), {Kind: "state", Ch: "a", Limit: -1}}},
+	{name: "ephemeral-single-key-revision", cfg: c23Ephemeral, ops: []c23Op{
+		c23P("a", "k1", "d1", nil), {Kind: "state", Ch: "a", Limit: -1, Key: "k1", Pos: true, PEpoch: "bogus"}}},
 	{name: "state-limit0-revision", cfg: c23Persistent, ops: []c23Op{
 		c23P("a", "k1", "d1", nil), {Kind: "state", Ch: "a", Limit: 0, Pos: true, POff: 1, PEpoch: "bogus"}}},
 }
@@ -527,6 +576,12 @@ func c23Tags(cfg c23Cfg, ops []c23Op, mem []c23Res, red []c23Res) string {
 			if op.Kind == "pub" && op.Mode != "" && op.Key != "" && mem[i].Kind == "upd" && mem[i].Supp &&
 				(mem[i].Reason == "key_exists" || mem[i].Reason == "key_not_found") {
 				return "map-ephemeral-keymode"
+			}
+		}
+		// the streamless single-key read is a bare HGET: the Revision is never looked at
+		for i, op := range ops {
+			if op.Kind == "state" && op.Key != "" && op.Pos && mem[i].Kind == "unrec" && red[i].Kind == "state" {
+				return "map-ephemeral-single-key-revision"
 			}
 		}
 		// streamless channels have no meta key: Redis reports a fresh / empty epoch on every call
@@ -660,7 +715,7 @@ func TestVerifC23(t *testing.T) {
 		wireC := make([]string, len(ops))
 		upd, stateNonEmpty := 0, false
 		for k, op := range ops {
-			opsC[k] = c23OpCoq(k, op, rr.nonceR[k])
+			opsC[k] = c23OpCoq(k, op, rr.nonceR[k], rr.now[k], e.node.ID())
 			redC[k] = c23ResCoq(rr.res[k], op.Ch, rr.ep)
 			memC[k] = c23ResCoq(mr.res[k], op.Ch, mr.ep)
 			cmds := make([]string, len(rr.wire[k]))
